@@ -224,14 +224,12 @@ impl Builtins {
                         // Importers work on bytes (base64 is meant for binary
                         // files); the text formats check the encoding themselves.
                         let contents = self.get_file_as_bytes(&path)?;
-                        if contents.is_empty() {
-                            eprintln!("including an empty file. Use NULL as the result");
-                            P(Empty)
-                        } else {
-                            match importer.import(&contents) {
-                                Ok(v) => v.into(),
-                                Err(e) => return Err(Error::new(format!("{}", e).into(), pos)),
-                            }
+                        // An empty file is whatever the format says it is: an
+                        // error for json, NULL for yaml, an empty tuple for
+                        // toml, the empty string for base64.
+                        match importer.import(&contents) {
+                            Ok(v) => v.into(),
+                            Err(e) => return Err(Error::new(format!("{}", e).into(), pos)),
                         }
                     }
                     None => {
